@@ -129,6 +129,8 @@ def gen_gs(rnd, big=False):
             if extra:
                 names.insert(rnd.randrange(len(names) + 1), extra[0])
         spec["group_names"] = names
+    if rnd.random() < 0.15:
+        spec["container"] = rnd.choice(["list", "tuple", "strided", "negstride", "series", "series"])
     return spec
 
 
